@@ -426,10 +426,128 @@ def rejected_rule(chk, db, rule_id):
             ok = any("pass_flag" in txt(cn) for cn, tr in cond_edges_dominating(f, c))
             chk.ob(rule_id, f.key, "copy of the option matrix only after its size was accepted", ok, f.loc(c),
                    "" if ok else "the size test before this copy only records an error: a matrix with more entries than expected is copied past the end of the vector")
+    # every strip of a matrix read from an option file that is addressed with an index bounded by something else than the matrix itself
+    for f in fns.values():
+        mats = {d_["did"] for d_ in f.locals().values() if d_.get("k") == "VarDecl" and d_.get("c") and any(short(callee(q) or "") == "readMatrix" for q in [d_["c"][0]] + list(walk(d_["c"][0])))}
+        if not mats:
+            continue
+        for c in f.calls():
+            if short(callee(c) or "") != "getStrip" or (strip(call_object(c)) or {}).get("did") not in mats or not is_reachable(f, c):
+                continue
+            idx = strip(call_args(c)[0])
+            if idx is None or idx.get("k") == "IntegerLiteral":
+                continue
+            loops = [a for a in f.ancestors(c) if a.get("k") == "ForStmt" and a.get("cond") is not None and any(z.get("k") == "DeclRefExpr" and z.get("did") == idx.get("did") for z in walk(a["cond"]))]
+            own = bool(loops) and any(z.get("k") == "DeclRefExpr" and z.get("did") in mats for z in walk(loops[0]["cond"]))
+            if own:
+                continue
+            n += 1
+            chk.saw(f)
+            ok = any("pass_flag" in txt(cn) for cn, tr in cond_edges_dominating(f, c))
+            chk.ob(rule_id, f.key, "row %s of the option matrix read only after its shape was accepted" % txt(idx)[:20], ok, f.loc(c),
+                   "" if ok else "the shape test before this read only records an error: the loop runs over the expected number of rows, not over the rows the file has")
     ex = fns.get("executeCommand")
     for c in ex.calls(into_lambda=False):
         if short(callee(c) or "") == "writeGrid" and is_reachable(ex, c):
             n += 1
             ok = any("pass_flag" in txt(cn) and tr for cn, tr in cond_edges_dominating(ex, c)) or any("pass_flag" in txt(cn) for cn, tr in cond_edges_dominating(ex, c))
             chk.ob(rule_id, ex.key, "the grid file is written only when the command succeeded", ok, ex.loc(c), "" if ok else "writeGrid() runs although an error was recorded")
+    return n
+
+
+def contour_rule(chk, db, rule_id):
+    """a depth type is 'curved' through its contour: type_curved, type_ipcurved and type_qpcurved all carry 2*dims anisotropic coefficients"""
+    chk.rule(rule_id, "the tool and the library decide 'curved' (two coefficients per dimension) from the contour of the depth type: a comparison with the enumerator type_curved either has the "
+                      "result of getControurType() on its other side (directly, through a local or through a member that every writer sets from it), or belongs to a chain of "
+                      "comparisons of the same operand that names the whole family (type_ipcurved and type_qpcurved as well, or the three level-based types type_level / type_curved / "
+                      "type_hyperbolic); a raw depth type compared with type_curved alone misses type_ipcurved and type_qpcurved and halves the length of the anisotropic coefficients")
+    allf = [g for gs in db.load_all().values() for g in gs]
+    contour_fields = {}
+
+    def field_is_contour(fld):
+        if fld not in contour_fields:
+            srcs = [w["c"][1] for g in allf for w in g.walk() if w.get("k") == "BinaryOperator" and w.get("op") == "=" and (strip(w["c"][0]) or {}).get("field") == fld]
+            srcs += [ini["init"] for g in allf if g.d.get("isctor") for ini in (g.d.get("inits") or []) if ini.get("field") == fld and ini.get("init") is not None and ini.get("written")]
+            contour_fields[fld] = bool(srcs) and all(any(short(callee(z) or "") == "getControurType" for z in [e] + list(walk(e))) or
+                                                      (strip(e) or {}).get("k") == "MemberExpr" and (strip(e) or {}).get("field") == fld for e in srcs)
+        return contour_fields[fld]
+    n = 0
+    for f in allf:
+        if f.file.startswith("@verif") or "/test" in f.file or f.file.startswith("Addons/test") or "Example" in f.file:
+            continue
+        for q in f.walk():
+            if q.get("k") != "BinaryOperator" or q.get("op") not in ("==", "!="):
+                continue
+            a, b = strip(q["c"][0]), strip(q["c"][1])
+            for x, y in ((a, b), (b, a)):
+                if y is None or y.get("k") != "DeclRefExpr" or short(y.get("enumc") or "") != "type_curved" or x is None:
+                    continue
+                n += 1
+                chk.saw(f)
+                ok = x.get("k") in ("CallExpr", "CXXMemberCallExpr") and short(callee(x) or "") == "getControurType"
+                if not ok and const_val(x) is not None:
+                    ok = True       # a template argument: the instantiation was selected by a switch over the contour
+                if not ok and x.get("k") == "DeclRefExpr":
+                    d_ = f.locals().get(x.get("did"))
+                    ok = d_ is not None and d_.get("c") and any(short(callee(z) or "") == "getControurType" for z in [d_["c"][0]] + list(walk(d_["c"][0])))
+                if not ok and x.get("k") == "MemberExpr" and x.get("field"):
+                    ok = field_is_contour(x["field"])
+                if not ok:
+                    # the whole family is named in the same chain of comparisons of the same operand
+                    top = q
+                    while True:
+                        par = f.parent.get(top.get("id"))
+                        if par is not None and par.get("k") in ("BinaryOperator", "ParenExpr", "ImplicitCastExpr") and (par.get("k") != "BinaryOperator" or par.get("op") in ("||", "&&")):
+                            top = par
+                        else:
+                            break
+                    names = set()
+                    for z in [top] + list(walk(top)):
+                        if z.get("k") == "BinaryOperator" and z.get("op") in ("==", "!="):
+                            l_, r_ = strip(z["c"][0]), strip(z["c"][1])
+                            for u, v in ((l_, r_), (r_, l_)):
+                                if v is not None and v.get("k") == "DeclRefExpr" and v.get("enumc") and u is not None and txt(u) == txt(x):
+                                    names.add(short(v["enumc"]))
+                    ok = {"type_ipcurved", "type_qpcurved"} <= names or {"type_level", "type_hyperbolic"} <= names
+                chk.ob(rule_id, f.key + f.sig, "`%s` @%d" % (txt(q)[:60], q.get("l", 0)), bool(ok), f.loc(q),
+                       "" if ok else "`%s` is a depth type, not a contour: type_ipcurved and type_qpcurved compare unequal to type_curved" % txt(x)[:40], "getControurType(type) == type_curved")
+    return n
+
+
+def refine_dispatch_rule(chk, db, rule_id):
+    """-refine picks the anisotropic variant for exactly the grid families whose API call accepts it"""
+    chk.rule(rule_id, "the command -refine selects setAnisotropicRefinement() for exactly the grid families that the API method accepts (the families named in its family guard), and the "
+                      "surplus variant for the others: a family that the API sends to the anisotropic routine but the tool sends to the surplus routine is rejected by the library "
+                      "and the tool ends with an uncaught exception")
+    FAMS = ("isGlobal", "isSequence", "isFourier", "isLocalPolynomial", "isWavelet")
+
+    def fam_atoms(e):
+        return {short(callee(q) or "") for q in [e] + list(walk(e)) if q.get("k") == "CXXMemberCallExpr" and short(callee(q) or "") in FAMS}
+    api = [f for f in db.all_functions(["SparseGrids/TasmanianSparseGrid.cpp"]) if f.name.endswith("::setAnisotropicRefinement") and "std::vector<int>" in f.sig]
+    if len(api) != 1:
+        raise AnalysisBroken("setAnisotropicRefinement(vector) not found")
+    accepted = None
+    for iff in api[0].walk():
+        if iff.get("k") == "IfStmt" and iff.get("then") is not None and any(x.get("k") == "CXXThrowExpr" for x in walk(iff["then"])):
+            c = strip(iff["cond"])
+            # `not (isA() or isB() or isC())` -> throw : the accepted families are the atoms under the negation
+            if c is not None and c.get("k") == "UnaryOperator" and c.get("op") == "!" and len(fam_atoms(c)) >= 2:
+                accepted = fam_atoms(c)
+    if not accepted:
+        raise AnalysisBroken("family guard of setAnisotropicRefinement not recognised")
+    n = 0
+    for f in db.all_functions(["Tasgrid/tasgridWrapper.cpp"]):
+        if f.cls != WR or short(f.name) != "refineGrid":
+            continue
+        for iff in f.walk():
+            if iff.get("k") != "IfStmt" or iff.get("then") is None or iff.get("else") is None:
+                continue
+            th = [txt(q) for q in walk(iff["then"]) if q.get("k") == "BinaryOperator" and q.get("op") == "="]
+            el = [txt(q) for q in walk(iff["else"]) if q.get("k") == "BinaryOperator" and q.get("op") == "="]
+            if not (any("command_refine_aniso" in t for t in th) and any("command_refine_surp" in t for t in el)):
+                continue
+            n += 1
+            chk.saw(f)
+            got = fam_atoms(iff["cond"])
+            chk.ob(rule_id, f.key, "families sent to the anisotropic variant by -refine", got == accepted, f.loc(iff), "tool: %s ; API accepts: %s" % (sorted(got), sorted(accepted)), "the families of the API guard")
     return n
